@@ -128,6 +128,10 @@ structure DiskInv (db : DB) : Prop where
   dflags : ∀ kr ∈ diskIndex db.fs, hasFlag kr.2.flags NO_CACHE = false
   dat1 : db.datOpen = true → ∃ f, dlookup db.dataSeq db.fs.dats = some f ∧ db.lastPos = f.length ∧ 4 ≤ f.length
   dat2 : db.datOpen = false → ∀ k ∈ Keys db.index, k ∈ db.pending
+  /-- every record of the disk index (also of keys that are pending now) can be read back -/
+  dreads : ∀ kr ∈ diskIndex db.fs, ∃ f v, dlookup kr.2.seq db.fs.dats = some f ∧ ReadsBack f kr.2 v
+  /-- before the first data file is opened nothing is on disk -/
+  dat3 : db.datOpen = false → diskIndex db.fs = []
 
 theorem plan_wf (seq : Nat) (ks : List Key) (hks : ∀ k ∈ ks, k < 2^64) (idx : List (Key × Rec))
     (hwf : ∀ kr ∈ idx, RecWF kr) (pos : Nat) : ∀ kr ∈ (syncPlan seq idx ks pos).1, RecWF kr := by
@@ -187,6 +191,33 @@ theorem plan_puts_cached (seq : Nat) (ks : List Key) (idx : List (Key × Rec)) (
 
 theorem core_strip (r : Rec) : core (strip r) = core r := rfl
 
+theorem ilookup_of_mem_nodup' {α : Type} (l : List (Key × α)) (h : (Keys l).Nodup) (k : Key) (x : α)
+    (hm : (k, x) ∈ l) : ilookup k l = some x := by
+  induction l with
+  | nil => cases hm
+  | cons hd t ih =>
+    obtain ⟨j, q⟩ := hd
+    simp only [Keys, List.map_cons, List.nodup_cons] at h
+    rcases List.mem_cons.mp hm with h1 | h1
+    · cases h1; simp [ilookup]
+    · have hj : j ≠ k := by
+        intro e
+        subst e
+        exact h.1 (List.mem_map.mpr ⟨(j, x), h1, rfl⟩)
+      simp only [ilookup, hj, ↓reduceIte]
+      exact ih h.2 h1
+
+theorem ilookup_key_pair' {α : Type} (k : Key) (x : α) (l : List (Key × α)) (h : ilookup k l = some x) : (k, x) ∈ l := by
+  induction l with
+  | nil => simp [ilookup] at h
+  | cons hd t ih =>
+    obtain ⟨j, q⟩ := hd
+    by_cases hj : j = k
+    · simp only [ilookup, hj, ↓reduceIte, Option.some.injEq] at h
+      simp [hj, h]
+    · simp only [ilookup, hj, ↓reduceIte] at h
+      exact List.mem_cons_of_mem _ (ih h)
+
 theorem ilookup_key_mem {α : Type} (k : Key) (x : α) (l : List (Key × α)) (h : ilookup k l = some x) : k ∈ Keys l := by
   induction l with
   | nil => simp [ilookup] at h
@@ -223,7 +254,7 @@ theorem sync_logWritten (db : DB) (inv : DiskInv db) (hp : db.pending.isEmpty = 
       exact ⟨le32 db.dataSeq, h1, by rw [h2]; simp, by simp, fun h => by simp at h⟩
   obtain ⟨f0, hf0, hlp0, hf0len, hf0old⟩ := hfile0
   have hc0 : Cached (checkDat db) := Cached.of_frame (frame_checkDat db) inv.cached
-  obtain ⟨d', hfold, hidx', hfile', hlp', hrest⟩ :=
+  obtain ⟨d', hfold, hidx', hfile', hlp', hrest, _⟩ :=
     syncFold_plan db.pending (checkDat db) [] f0 hc0 (by rw [c_ds]; exact hf0) hlp0
   rw [c_ds, c_ix] at hfold hidx' hfile' hlp'
   rw [c_ds] at hrest
@@ -355,6 +386,43 @@ theorem sync_logWritten (db : DB) (inv : DiskInv db) (hp : db.pending.isEmpty = 
   · intro _
     refine ⟨f0 ++ plan.2.2, by rw [l_ds, r_ds, c_ds]; exact hdatL, ?_, by simp only [List.length_append]; omega⟩
     rw [l_lp, hlp', hlp0]; simp
+  · intro h
+    rw [l_do, r_do, c_open] at h; cases h
+  · -- every disk record is readable
+    intro kr hkr
+    have hnd' : (Keys (diskIndex (logWritten d' (encLog plan.2.1)).fs)).Nodup := nodup_diskIndex _
+    have hlk := ilookup_of_mem_nodup' _ hnd' kr.1 kr.2 hkr
+    rw [hDI, (hlook kr.1).1] at hlk
+    by_cases hk : kr.1 ∈ db.pending
+    · simp only [hk, ↓reduceIte] at hlk
+      cases hm : ilookup kr.1 plan.1 with
+      | none => rw [hm] at hlk; simp at hlk
+      | some r =>
+        rw [hm] at hlk
+        simp only [Option.map_some, Option.some.injEq] at hlk
+        have := plan_reads db.dataSeq db.pending inv.pnodup db.index f0 (fun kr hkr => (inv.wf kr hkr).2.2)
+          (by rw [← hlp0, hplan]; exact hsmall) kr.1 hk r (by rw [← hlp0, hplan]; exact hm)
+        rw [← hlp0, hplan] at this
+        refine ⟨f0 ++ plan.2.2, r.data.getD [], ?_, ?_⟩
+        · rw [← hlk]; show dlookup r.seq _ = _; rw [this.1]; exact hdatL
+        · rw [← hlk]; exact this.2.2 |> fun h3 => ⟨this.2.1, this.2.2.1, h3.2⟩
+    · simp only [hk, ↓reduceIte] at hlk
+      have hmem := ilookup_key_pair' kr.1 kr.2 _ hlk
+      obtain ⟨f, v, h1, h2⟩ := inv.dreads (kr.1, kr.2) hmem
+      by_cases hs : kr.2.seq = db.dataSeq
+      · cases ho : db.datOpen with
+        | true =>
+          have : f = f0 := by
+            have := hf0old ho
+            rw [hs] at h1
+            rw [h1] at this
+            exact Option.some.inj this
+          subst this
+          exact ⟨f ++ plan.2.2, v, by rw [hs]; exact hdatL, h2.append _⟩
+        | false =>
+          rw [inv.dat3 ho] at hmem
+          cases hmem
+      · exact ⟨f, v, by rw [hother _ hs]; exact h1, h2⟩
   · intro h
     rw [l_do, r_do, c_open] at h; cases h
 
